@@ -117,6 +117,26 @@ def runner(rep, tier, seed, replay):
         jobs.append({"entry": "c", "text": line, "files": files, "timeout": 6, "want_files": False})
         meta.append(("pair", m1[0] + "+" + m2[0], line, [], [], m1[5] + ["q q"] + m2[5], {"t": t1 + " " + t2, "files": files, "feat": {"pair": True}}, False, None))
     log("[C12] %d cases (%d brace strings of %d enumerated, %d ranges/globs, 7 tilde, pairs)" % (len(jobs), len(br), nbr, len(rg)))
+    # ---- the same words as the word list of a script `for` loop: every produced word is one item, in order - also a word that
+    # contains a blank (from a matched file name or from a variable in front of the group / range)
+    fsel = rnd.sample(single, min(len(single), 250 if tier == "quick" else 3000))
+    fjobs, fmeta = [], []
+    for m in fsel:
+        t = m[6]["t"]
+        fjobs.append({"entry": "script", "text": "for f in %s\n    vpa IT \"$f\"\ndone\n" % t, "files": m[6].get("files", {}), "timeout": 8, "want_files": False})
+        fmeta.append((t, m[5]))
+    for t, words in (("$D/i{1..3}.p", ["my dir/i1.p", "my dir/i2.p", "my dir/i3.p"]), ("$D/{a,b}", ["my dir/a", "my dir/b"]),
+                     ("x{2..1}$D", ["x2my dir", "x1my dir"])):
+        fjobs.append({"entry": "script", "text": "for f in %s\n    vpa IT \"$f\"\ndone\n" % t, "env": {"D": "my dir"}, "timeout": 8, "want_files": False})
+        fmeta.append((t, words))
+    fres = run_cases(fjobs)
+    for (t, words), res in zip(fmeta, fres):
+        rep.cov["evaluations"] += 1
+        items = [r.get("argv") for r in res.get("log", []) if r.get("h") == "pa"]
+        # (an empty word of an unquoted list may be kept or dropped: the statement does not say)
+        if res.get("timed_out") or items not in ([["IT", w] for w in words], [["IT", w] for w in words if w != ""]):
+            rep.violation("for-list", "`for f in %s`: items %s, expected %s" % (t, [i[1:] for i in items], words),
+                          {"kind": "for", "line": "for f in " + t, "case": {"t": t}, "got": items}, {"kind": "for", "t": t})
     results = run_cases(jobs)
     distinct = set()
     for (kind, key, line, b, a, words, case, neg, alts), j, res in zip(meta, jobs, results):
